@@ -86,7 +86,7 @@ pub fn past_mtime_strategy() -> BoxedStrategy<Mtime> {
     mtime_strategy()
         .prop_map(|m| match m {
             Mtime::Future(..) => Mtime::At(T0, 250_000_000),
-            Mtime::At(s, n) if s > 4_000_000_000 => Mtime::At(T0 + 5, n),
+            Mtime::At(s, n) if s > 1_700_000_000 => Mtime::At(s % 1_700_000_000, n),
             m => m,
         })
         .boxed()
